@@ -40,7 +40,7 @@ func VerifPatchPrepareContent(cfg *config.Config, importPath string, mains []mai
 	p := &PatchExecutor{cfg: cfg, goatImportPath: importPath, goatPackageAlias: cfg.GoatPackageAlias,
 		mainPackageInfos: mains, fileTrackIdStartMap: map[string]trackIdxInterval{}, filesContents: map[string]string{}}
 	gf, err := p.prepareContent(filename)
-	return gf.filename, gf.content, p.changed, err
+	return gf.filename, gf.content, p.changed.Load(), err
 }
 
 // VerifPatchReplaceTracks runs PatchExecutor.replaceTracks on the given contents and returns
